@@ -276,13 +276,49 @@ def _seed_probe_ok(fm: FuncModel, n: ast.Assign, L: str) -> list[str]:
     av = next((k.value for k in c.keywords if k.arg == "avoid_subspaces"), None)
     if av is not None:
         # only intersections with motifs of *expanded* siblings, reduced to the successor's free variables
-        txt = ast.unparse(fm.f.node)
-        if "sd.node_data(x)['expanded']" not in txt and 'sd.node_data(x)["expanded"]' not in txt:
+        if not _from_expanded_children(fm, av, at, 0):
             probs.append("the probe avoids motifs of children that are not known to be expanded: candidates covered only "
                          "by an unexpanded sibling would be dropped")
     if any(k.arg == "ensure_subspace" for k in c.keywords):
         probs.append("the probe is restricted by ensure_subspace")
     return probs
+
+
+def _from_expanded_children(fm: FuncModel, e: ast.AST, at, depth: int) -> bool:
+    """Every element of the list `e` derives from a child that was selected by its `expanded` flag: the provenance
+    (comprehensions, copies, lists filled in loops) ends in `[x for x in node_successors(..) if node_data(x)['expanded']]`."""
+    if depth > 10 or e is None:
+        return False
+    if isinstance(e, ast.Call) and callee_name(e) in ("sorted", "list", "tuple") and e.args:
+        return _from_expanded_children(fm, e.args[0], at, depth + 1)
+    if isinstance(e, (ast.ListComp, ast.GeneratorExp)):
+        g = e.generators[0]
+        if isinstance(g.target, ast.Name):
+            for c in g.ifs:
+                k = fm.key(logic._rename(c, g.target.id, "_q"), at)
+                it = unwrap_order(g.iter)
+                if k.startswith("FIELD<") and k.endswith("|_q|expanded>") and isinstance(it, ast.Call) and callee_name(it) == "node_successors":
+                    return True
+        return _from_expanded_children(fm, g.iter, at, depth + 1)
+    if isinstance(e, ast.Name):
+        vd = fm.value_defs(e.id, at)
+        if not vd:
+            return False
+        for d, v in vd:
+            if v is not None and is_empty_list(v):
+                apps = [c for c in own_walk(fm.f.node) if isinstance(c, ast.Call) and isinstance(c.func, ast.Attribute)
+                        and c.func.attr == "append" and text(c.func.value) == e.id]
+                if not apps:
+                    return False
+                for c in apps:
+                    lps = [l for l in fm.cfg.enclosing_loops(fm.cfgn(c)) if isinstance(l, ast.For)]
+                    if not lps or not _from_expanded_children(fm, lps[0].iter, fm.cfg.loop_header[lps[0]], depth + 1):
+                        return False
+                continue
+            if not _from_expanded_children(fm, v, d, depth + 1):
+                return False
+        return True
+    return False
 
 
 # ------------------------------------------------------------------------------------------ G (level drivers)
@@ -654,36 +690,89 @@ def blocks(ck: Check, rule: str) -> None:
             probs.append("every block must be compared with every block")
     ck.ob(rule, fm, anchor, not probs, "; ".join(probs) if probs else
           "a block is dropped iff another block is a strict subset", key="block minimality")
-    # what enters the next level
+    # what enters the next level: `A = A | set(S)` (or |=, update) -- S is all successors, or the nodes of the smallest
+    # minimal block (without MAA check), or the nodes of a block known to be clean
+    from . import c15
     probs = []
-    n = 0
+    unions = []   # (A, S expr, stmt)
     for x in own_walk(f.node):
-        if isinstance(x, ast.Assign) and text(x.targets[0]) == "next_level" and isinstance(x.value, ast.BinOp):
-            rhs = x.value.right
-            src = rhs.args[0] if isinstance(rhs, ast.Call) and callee_name(rhs) == "set" and rhs.args else rhs
-            n += 1
-            cn = fm.cfgn(x)
-            t = text(src)
-            if t == "successors":
-                pc = dom_pc_text(fm, cn)
+        A = S = None
+        if isinstance(x, ast.Assign) and isinstance(x.targets[0], ast.Name) and isinstance(x.value, ast.BinOp) \
+                and isinstance(x.value.op, ast.BitOr) and isinstance(x.value.left, ast.Name) and x.value.left.id == x.targets[0].id:
+            A, S = x.targets[0].id, x.value.right
+        elif isinstance(x, ast.AugAssign) and isinstance(x.op, ast.BitOr) and isinstance(x.target, ast.Name):
+            A, S = x.target.id, x.value
+        elif isinstance(x, ast.Expr) and isinstance(x.value, ast.Call) and isinstance(x.value.func, ast.Attribute) \
+                and x.value.func.attr == "update" and isinstance(x.value.func.value, ast.Name) and x.value.args:
+            A, S = x.value.func.value.id, x.value.args[0]
+        if A is not None:
+            while isinstance(S, ast.Call) and callee_name(S) in ("set", "sorted", "list", "frozenset") and S.args:
+                S = S.args[0]
+            unions.append((A, S, x))
+    kinds = []
+
+    def sorted_by_size(name: str, at) -> bool:
+        for d, v in fm.value_defs(name, at):
+            if isinstance(v, ast.Call) and callee_name(v) == "sorted":
+                k = next((kw.value for kw in v.keywords if kw.arg == "key"), None)
+                if isinstance(k, ast.Lambda) and k.args.args and text(k.body) == f"len({k.args.args[0].arg}[1])":
+                    return True
+        return False
+
+    for A, S, x in unions:
+        cn = fm.cfgn(x)
+        S0 = fm.deref(S, cn)
+        if isinstance(S0, ast.Call) and callee_name(S0) == "node_successors":
+            kinds.append("all")
+            continue
+        if isinstance(S, ast.Name):
+            vd = fm.value_defs(S.id, cn)
+            def roots(name, at, depth=0):
+                out = []
+                for d_, v_ in fm.value_defs(name, at):
+                    u = unwrap_order(v_) if v_ is not None else None
+                    if isinstance(u, ast.Name) and depth < 6:
+                        out += roots(u.id, d_, depth + 1)
+                    else:
+                        out.append(u)
+                return out
+            rs = roots(S.id, cn)
+            if rs and all(isinstance(u, ast.Call) and callee_name(u) == "node_successors" for u in rs):
+                kinds.append("all")
                 continue
-            if t == "to_expand":
-                sd_ = fm.single_def("to_expand", cn)
-                if not (sd_ and text(sd_[1]) == "minimal_blocks[0][1]"):
-                    probs.append("the block expanded without MAA check is not the first (smallest) minimal block")
-                continue
-            if t == "block_nodes":
-                pc = dom_pc_text(fm, cn)
-                if not logic.implies(pc, logic.B("T:is_clean")):
-                    probs.append("a block is chosen without being known clean")
-                continue
-            probs.append(f"line {x.lineno}: `{t}` enters the next level")
-    srt = [x for x in own_walk(f.node) if isinstance(x, ast.Assign) and text(x.targets[0]) == "minimal_blocks"
-           and isinstance(x.value, ast.Call) and callee_name(x.value) == "sorted"]
-    if not srt or "len(x[1])" not in text(srt[0].value):
-        probs.append("minimal blocks are not ordered by their number of successor nodes")
-    ck.ob(rule, fm, f.node, not probs and n >= 3, "; ".join(probs) if probs else
-          "next level = smallest minimal block | clean block | all successors", key="next level")
+        if isinstance(S0, ast.Subscript) and isinstance(S0.value, ast.Subscript) and isinstance(S0.value.value, ast.Name) \
+                and text(S0.slice) == "1" and text(S0.value.slice) == "0":
+            kinds.append("smallest")
+            if not sorted_by_size(S0.value.value.id, cn):
+                probs.append("the block expanded without MAA check is not the first (smallest) minimal block: minimal blocks are "
+                             "not ordered by their number of successor nodes")
+            continue
+        # second component of a loop over the (sorted) minimal blocks, under evidence that the block is clean
+        lp = None
+        if isinstance(S, ast.Name):
+            for d in fm.cfg.reaching_defs(S.id, cn):
+                if d.kind == "for" and isinstance(d.ast.target, ast.Tuple) and len(d.ast.target.elts) == 2 \
+                        and text(d.ast.target.elts[1]) == S.id:
+                    lp = d.ast
+        if lp is not None:
+            kinds.append("clean")
+            ev_ok = False
+            for b_ in fm.cfg.dominators(cn):
+                if b_.kind == "branch" and b_.test is not None and b_.pol and b_.id in fm.cfg.loop_nodes[lp]:
+                    tnode = fm.cfg.nodes[next(iter(fm.cfg.g.predecessors(b_.id)))]
+                    if not c15._is_config_test(fm, b_.test, tnode) and not c15.guard_value_ok(fm, b_.test, tnode, ck.prog):
+                        ev_ok = True
+            if not ev_ok:
+                probs.append("a block is chosen without being known clean")
+            continue
+        if isinstance(S0, ast.Call) and callee_name(S0) == "_ensure_node":
+            continue  # children created by the source shortcut (rule G)
+        probs.append(f"line {x.lineno}: `{text(S)}` enters the next level")
+    ok_kinds = {"all", "smallest", "clean"} <= set(kinds)
+    ck.ob(rule, fm, f.node, not probs and ok_kinds, "; ".join(probs) if probs else
+          ("next level = smallest minimal block | clean block | all successors" if ok_kinds else
+           f"the next level is filled from {sorted(set(kinds))}; expected: all successors, the smallest minimal block, a clean block"),
+          key="next level")
     # a block's successors are grouped by the backward-closed variable set of their reduced motif
     probs = []
     mb = [x for x in own_walk(f.node) if isinstance(x, ast.Call) and callee_name(x) == "backward_reachable"]
